@@ -132,3 +132,33 @@ claim("C18",
       "followed by a final-state probe of every pool key.",
       STORE_TB + "The example store's Go code is not modelled function by function: the tie is the differential run. Two reply shapes the handler interface cannot express are recorded findings.",
       "Coq invariant proof over all programs of the reference model + exhaustive short-program differential runs against the example server")
+LIFE_TB = TB + ("Lifecycle.v models Start/Stop/Restart, the accept loops, the connection goroutines, the registry and the two WaitGroups of redis/server.go as a transition system "
+                "whose schedules are arbitrary label lists; its executable scheduler (life_model, extracted) is compared with a real server over loopback sockets. ")
+claim("C15",
+      "Theorems, for every schedule (any interleaving of API steps, accept-loop steps, connection-goroutine steps and client arrivals, any length, any number of clients): an inductive "
+      "invariant (20 clauses: WaitGroup counters = live goroutines, registry = registered connections, listener fields point to open listeners owned by live accept loops, ...) holds in "
+      "every reachable state; hence while running every enabled port has an open listener with a live accept loop that accepts an arriving client; at the moment Stop returns no "
+      "listener is open, the registry is empty, every accept loop and connection goroutine has returned with its socket closed; outside Stop's close phase the registry is exactly "
+      "the connections between registration and deregistration. Correspondence: every legal Start/Stop/Restart sequence up to length 4 (6 thorough) x {plain, TLS, both ports} with "
+      "clients connecting / idling / disconnecting, random longer ones: per-step observations equal the model's prediction, and serving / re-bindable ports / closed clients / empty "
+      "registry / goroutine baseline are checked on the real server.",
+      LIFE_TB + "Partial: the interleavings explored on the implementation are those the Go scheduler produces (no forced schedule points); kernel listen backlog and TIME_WAIT are outside the model; "
+      "Stop's termination (liveness) is not proved.",
+      "Coq inductive invariant over all schedules of a lifecycle transition system + model-vs-server runs of lifecycle sequences")
+claim("C19",
+      "Theorems: for EVERY input byte string, handler and admission outcome the connection trace registers once first (iff admitted), deregisters and closes exactly once last, and touches "
+      "neither registry nor socket in between; a rejected certificate only closes; the loop always ends. Over all schedules of the lifecycle system a finished goroutine has closed its socket "
+      "and a failed handshake / rejected certificate releases that connection without touching the registry. Runtime half observed: scripted connections with every request outcome x every "
+      "ending (boundary, mid-request, protocol error, reset, write failure), and churn over real sockets - 11 ending modes (FIN, mid-request FIN, RST, QUIT, malformed, client stops "
+      "reading, TLS close_notify, TLS RST, failed handshake, rejected certificate, stalled handshake) alone and mixed with 1/8/32 in flight, then Stop with open connections: registry, "
+      "goroutine count and descriptors back at baseline.",
+      LIFE_TB + CONN_TB + "Partial: what the kernel does with a closed socket, and baselines polled with a 4 s grace period, are observations.",
+      "Coq theorems (release on every exit path; lifecycle invariant) + churn over real sockets with goroutine/descriptor/registry baselines")
+claim("C09",
+      "Theorems: a TLS connection that is not admitted (common-name rule configured and the verified chain's LEAF does not carry the name, or no certificate) produces the trace [close] - "
+      "nothing is registered, read, executed or answered - for every input; admission compares the leaf only (names on intermediates are irrelevant); over all schedules a failed or rejected "
+      "handshake ends only that connection and leaves listeners, accept loops, registry and all other connections unchanged. The finite space is enumerated completely against real "
+      "crypto/tls: {no rule, rule, rule+password} x {none, plain text, self-signed, foreign CA, expired, wrong name, name only on an intermediate, valid, valid under a neutral intermediate} "
+      "x {complete, abort after ClientHello, stall, garbage} x order: executed-for-client and immediate service of a valid TLS client and a plain client afterwards.",
+      LIFE_TB + "Partial: X.509 path validation and the TLS state machine are an oracle (the handshake outcome is an input of the model).",
+      "Coq theorems (gate on the leaf name, containment of failed handshakes) + complete enumeration against crypto/tls")
